@@ -82,11 +82,29 @@ def getitem (A : Op R) : List GIx → GRes R
           let c ← GRes.wrap A.cols p.2
           let r ← GRes.wrap A.rows p.1
           pure (r, c)) with
+      | some [] => .err "error:ValueError"      -- `xnp.stack([])`: "need at least one array to stack"
       | some ps =>
           let vals := ps.map (fun p => A.colVec p.2 p.1)
           .vec vals.length (fun t => vals.getD t 0)
       | none => .err "index-error"
   | _ => .err "not-implemented"
+
+/-- NumPy broadcasting of two 1-D integer index sequences: equal lengths pair up, a sequence of
+length 1 is repeated along the other one, anything else is a shape mismatch (`IndexError`) -/
+def bcastIdx (l0 l1 : List Int) : Option (List Int × List Int) :=
+  if l0.length = l1.length then some (l0, l1)
+  else if l0.length = 1 then some (List.replicate l1.length (l0.headD 0), l1)
+  else if l1.length = 1 then some (l0, List.replicate l0.length (l1.headD 0))
+  else none
+
+/-- NumPy's paired ("fancy") selection `D[l0, l1]` of an `r × c` matrix by two integer sequences -/
+def npPaired (r c : Nat) (D : MatF R) (l0 l1 : List Int) : GRes R :=
+  match bcastIdx l0 l1 with
+  | some (a, b) =>
+    match GRes.wrapAll r a, GRes.wrapAll c b with
+    | some rs, some cs => .vec rs.length (fun t => D (rs.getD t 0) (cs.getD t 0))
+    | _, _ => .err "index-error"
+  | none => .err "index-error"
 
 /-- NumPy indexing of the represented `r × c` matrix `D` -/
 def npIndex (r c : Nat) (D : MatF R) : List GIx → GRes R
@@ -107,22 +125,14 @@ def npIndex (r c : Nat) (D : MatF R) : List GIx → GRes R
       | some rs => .op (dense .f64 rs.length c (fun i j => D (rs.getD i 0) j))
       | none => .err "index-error"
   | [.ix (.arr l0), .ix (.arr l1)] =>
-      -- NumPy pairs two integer index arrays (pointwise), it does not take the outer selection
-      if l0.length = l1.length then
-        match GRes.wrapAll r l0, GRes.wrapAll c l1 with
-        | some rs, some cs => .vec rs.length (fun t => D (rs.getD t 0) (cs.getD t 0))
-        | _, _ => .err "index-error"
-      else .err "index-error"
+      -- NumPy pairs two integer index arrays (pointwise, with broadcasting of a length-1 array),
+      -- it does not take the outer selection
+      npPaired r c D l0 l1
   | [.ix s0, .ix s1] =>
       match Ix.resolve r s0, Ix.resolve c s1 with
       | some rs, some cs => .op (dense .f64 rs.length cs.length (fun i j => D (rs.getD i 0) (cs.getD j 0)))
       | _, _ => .err "index-error"
-  | [.list li, .list lj] =>
-      if li.length = lj.length then
-        match GRes.wrapAll r li, GRes.wrapAll c lj with
-        | some rs, some cs => .vec rs.length (fun t => D (rs.getD t 0) (cs.getD t 0))
-        | _, _ => .err "index-error"
-      else .err "index-error"
+  | [.list li, .list lj] => npPaired r c D li lj
   | _ => .err "not-implemented"
 
 end Op
